@@ -96,7 +96,7 @@ VARIANTS += [
          ("C16.12", "Register.resolve_size:range-step"), ("C16",)),
     # reverting fix 8a1e340
     fire("c16-build-map-size-of-any-entity",
-         [(CBD, '                if not isinstance(src, Register):\n                    raise JaqalError(\n                        f"Cannot slice {src_name}: it is not a register"\n                    )\n                stop = src.size', "                stop = src.size")],
+         [(CBD, '                if not isinstance(src, Register):\n                    raise JaqalError(\n                        f"Cannot slice {src_name}: it is not a register"\n                    )\n                if src.fundamental:', "                if src.fundamental:")],
          ("C16.14", "Builder.build_map:context-entity:src.size"), ("C16",)),
     fire("c16-as-integer-handler-narrowed",
          [(CBD, "    except Exception:\n        # The value wasn't even numeric.", "    except (TypeError, ValueError, JaqalError):\n        # The value wasn't even numeric.")],
@@ -143,4 +143,19 @@ VARIANTS += [
     fire("c16-lexer-int-unguarded-handler-dropped",
          [(SLY, "        except ValueError:\n            # Python refuses to convert digit strings beyond a length limit", "        except TypeError:\n            # Python refuses to convert digit strings beyond a length limit")],
          ("C16.13", "JaqalLexer.INT:conversion-handler"), ("C16",)),
+]
+
+RG16 = "src/jaqalpaq/core/register.py"
+VARIANTS += [
+    # reverting fix 3880ead
+    fire("c16-eof-error-without-position",
+         [(SLY, '            text = self._source_text or ""\n            line = text.count("\\n") + 1\n            col = len(text) - (text.rfind("\\n") + 1) + 1\n', '            line = "EOF"\n            col = 0\n')],
+         ("C16.7", "JaqalParser.error:position-on-every-path"), ("C16",)),
+    # reverting fix dddb8af
+    fire("c16-module-directory-not-checked-for-init",
+         [(IMPF, '    if (try_directory / "__init__.py").is_file():\n', "    if try_directory.is_dir():\n")],
+         ("C16.20", "_jaqal_find_spec_relative:path-tested:spec_from_file_location"), ("C16",)),
+    fire("c16-import-path-not-checked",
+         [(IMPF, '    if not Path(search_path).is_dir():\n        raise ImportError(f"Unable to find module {mod_name}")\n\n', "")],
+         ("C16.20", "path-tested:listdir"), ("C16",)),
 ]
